@@ -68,6 +68,30 @@ def check_iban(rec: Rec, text: str, origin: str, must_accept=True):
     return True
 
 
+def check_foreign_bban_object(rec: Rec, cc, y, bban, want_text):
+    from ..lib import BBAN, IBAN, SchwiftyException
+    o = oracle()
+    inp = {"iban": want_text, "origin": "foreign-bban-object", "bban_object_country": cc}
+    try:
+        got = IBAN.from_bban(y, BBAN(cc, bban))
+    except SchwiftyException as e:
+        rec.fail("foreign_bban_object_rejected", "from_bban_roundtrip", inp, want_text, f"{type(e).__name__}: {e}")
+        return
+    except Exception as e:  # noqa: BLE001
+        rec.fail(f"foreign_bban_object_raises|{type(e).__name__}", "from_bban_roundtrip", inp, want_text, f"{type(e).__name__}: {e}")
+        return
+    if str(got) != want_text or got.country_code != y or getattr(got.bban, "country_code", None) != y:
+        rec.fail("foreign_bban_object_result", "from_bban_roundtrip", inp, want_text, [str(got), getattr(got.bban, "country_code", None)])
+        return
+    for k in COMPONENTS:
+        want = o.component(y, bban, k)
+        if getattr(got, k) != want or getattr(got.bban, k) != want:
+            rec.fail(f"foreign_bban_object_component|{k}", "component_is_table_slice", {**inp, "component": k}, want,
+                     [getattr(got, k), getattr(got.bban, k)])
+            return
+    rec.classes["foreign-bban-object"] += 1
+
+
 def check_bic(rec: Rec, text: str, origin: str):
     from ..lib import BIC, SchwiftyException
     inp = {"bic": text, "origin": origin}
@@ -86,6 +110,10 @@ def check_bic(rec: Rec, text: str, origin: str):
 
 def replay(rec, case):
     i = case["input"]
+    if i.get("origin") == "foreign-bban-object":
+        t = i["iban"]
+        check_foreign_bban_object(rec, i["bban_object_country"], t[:2], t[4:], t)
+        return
     if "bic" in i:
         check_bic(rec, i["bic"], i.get("origin", "replay"))
     else:
@@ -111,6 +139,9 @@ def shard_country(arg):
             for y, ty in sibs:
                 check_iban(rec, ty, "sibling")
                 rec.case("iban-sibling-text", (y, ty))
+                # a BBAN object parsed for THIS country handed to from_bban for the sibling country: the result is the
+                # sibling's IBAN, with the sibling's field positions
+                check_foreign_bban_object(rec, cc, y, t[4:], ty)
             if sibs:
                 check_iban(rec, t, "after-sibling")
         # "every accepted IBAN": whatever else the library accepts among the congruent spellings of the check digits
@@ -211,4 +242,4 @@ def run(ctx):
     bics = sorted({e["bic"] for e in banks if e.get("bic")})[::ctx.pick(3, 1)]
     chunk = max(1, len(bics) // 32)
     ctx.pmap(shard_bic, [(bics[i:i + chunk], ctx.seed) for i in range(0, len(bics), chunk)])
-    ctx.require_classes("iban-sibling-text", "iban-registry-derived", "bic-registry", "bic-gen-8", "bic-gen-11", *[f"iban-{cc}" for cc in o.countries()])
+    ctx.require_classes("foreign-bban-object", "iban-sibling-text", "iban-registry-derived", "bic-registry", "bic-gen-8", "bic-gen-11", *[f"iban-{cc}" for cc in o.countries()])
